@@ -146,7 +146,7 @@ Expected(r, i) ==
     [method |-> r.method, target |-> r.target, ver |-> r.ver,
      fields |-> [k \in 1 .. Len(r.fields) |-> FieldSeen(r.fields[k])],
      body |-> IF r.bodyLen = 0 THEN << >> ELSE <<<<i, 0, r.bodyLen>>>>,
-     trailers |-> [k \in 1 .. Len(r.trailers) |-> [name |-> r.trailers[k].lname, value |-> r.trailers[k].value]]]
+     trailers |-> [k \in 1 .. Len(r.trailers) |-> [name |-> r.trailers[k].lname, value |-> r.trailers[k].seen]]]
 
 \* the request asks to close the connection after its response
 AsksClose(r) == r.close
